@@ -30,6 +30,50 @@ def mirror(s):
     return frozenset(MIRROR[x] for x in s)
 
 
+import re as _re
+_OFF = _re.compile(r"^\((.*)\+#(\d+)\)$")
+
+
+def add_const(v, c):
+    """v + c with constant offsets folded: (x+#3)+#5 -> (x+#8)."""
+    if v[0] == "c":
+        return ("c", v[1] + c)
+    if c == 0:
+        return v
+    m = _OFF.match(v[1])
+    if m and _balanced(m.group(1)):
+        n = int(m.group(2)) + c
+        if n == 0:
+            return ("s", m.group(1))
+        if n > 0:
+            return ("s", "(%s+#%d)" % (m.group(1), n))
+    if c > 0:
+        return ("s", "(%s+#%d)" % (v[1], c))
+    return ("s", "(%s-#%d)" % (v[1], -c))
+
+
+def _balanced(t):
+    d = 0
+    for ch in t:
+        if ch == "(":
+            d += 1
+        elif ch == ")":
+            d -= 1
+            if d < 0:
+                return False
+    return d == 0
+
+
+def split_off(v):
+    """(base string, constant offset) of a symbolic value."""
+    if v[0] == "c":
+        return ("", v[1])
+    m = _OFF.match(v[1])
+    if m and _balanced(m.group(1)):
+        return (m.group(1), int(m.group(2)))
+    return (v[1], 0)
+
+
 class Event:
     __slots__ = ("kind", "node", "block", "a", "b", "c")
 
@@ -86,7 +130,7 @@ class Path:
 
 
 class State:
-    __slots__ = ("env", "epoch", "cons", "events", "visits", "blocks", "atoms", "nodeval", "fresh")
+    __slots__ = ("env", "epoch", "cons", "events", "visits", "blocks", "atoms", "nodeval", "fresh", "det")
 
     def copy(self):
         s = State()
@@ -99,6 +143,7 @@ class State:
         s.atoms = dict(self.atoms)
         s.nodeval = dict(self.nodeval)
         s.fresh = self.fresh
+        s.det = False
         return s
 
 
@@ -178,6 +223,17 @@ class APE:
                         return ("c", 1 if rel in OPSETS[op] else 0)
                 except Exception:
                     pass
+            if op == "+" and b[0] == "c" and a[0] == "s":
+                return add_const(a, b[1])
+            if op == "+" and a[0] == "c" and b[0] == "s":
+                return add_const(b, a[1])
+            if op == "-" and b[0] == "c" and a[0] == "s" and b[1] >= 0:
+                return add_const(a, -b[1])
+            if op == "-" and a[0] == "s" and b[0] == "s":
+                ba, oa = split_off(a)
+                bb, ob = split_off(b)
+                if ba == bb and oa >= ob:
+                    return ("c", oa - ob)
             return ("s", "(%s%s%s)" % (vstr(a), op, vstr(b)))
         if k == "CallExpr":
             # evaluated on demand (pure position); normally pre-evaluated by step()
@@ -325,6 +381,9 @@ class APE:
         else:
             st.fresh += 1
             rv = ("s", "%s(%s)#%d" % (name, ",".join(vstr(a) for a in argv), st.fresh))
+        cr = self.cg.const_return(self.unit, callee) if callee else None
+        if cr is not None:
+            rv = ("c", cr)
         st.events.append(Event("call", n, B.id, name, argv, rv))
         if not pure:
             only_locals = not other
@@ -362,15 +421,18 @@ class APE:
                     v = ("s", "(%s%s%s)" % (vstr(old), n["op"][:-1], vstr(r)))
                     if old[0] == "c" and r[0] == "c" and n["op"] in ("+=", "-="):
                         v = ("c", old[1] + r[1] if n["op"] == "+=" else old[1] - r[1])
+                    elif r[0] == "c" and n["op"] == "+=":
+                        v = add_const(old, r[1])
                 self._store(st, lhs, v, n, B)
             elif k == "UnaryOperator" and n.get("op") in ("++", "--"):
                 old = self.val(st, n["kids"][0])
                 if old[0] == "c":
                     v = ("c", old[1] + (1 if n["op"] == "++" else -1))
+                elif n["op"] == "++":
+                    v = add_const(old, 1)
                 else:
-                    v = ("s", "(%s%s#1)" % (vstr(old), "+" if n["op"] == "++" else "-"))
-                if not n.get("prefix", True):
-                    st.nodeval[n["id"]] = old
+                    v = ("s", "(%s-#1)" % vstr(old))
+                st.nodeval[n["id"]] = old if not n.get("prefix", True) else v
                 self._store(st, n["kids"][0], v, n, B)
             elif k == "DeclStmt":
                 for d in n["decls"]:
@@ -408,6 +470,7 @@ class APE:
         st.atoms = {}
         st.nodeval = {}
         st.fresh = 0
+        st.det = False
         self.paths = []
         self.stop = set(stop)
         stack = [(start if start is not None else f.entry, st)]
@@ -427,7 +490,7 @@ class APE:
         f = self.f
         B = f.blocks[bid]
         v = st.visits.get(bid, 0)
-        if v > self.bound:
+        if v > self.bound and not (getattr(st, "det", False) and v < 4096):
             self._finish(st, "cut")
             return
         st.visits[bid] = v + 1
@@ -454,6 +517,7 @@ class APE:
                 if tgt is None:
                     self._finish(st, "cut")
                 else:
+                    st.det = True   # deterministic continuation: constant-trip loops unroll fully
                     stack.append((tgt, st))
                 return
             atom, acc, nodes = lit
@@ -469,6 +533,7 @@ class APE:
                 s2 = st if (first and len(outs) == 1) else st.copy()
                 first = False
                 s2.cons[atom] = frozenset(new)
+                s2.det = False
                 s2.atoms.setdefault(atom, nodes)
                 s2.events.append(Event("branch", B.cond, B.id, atom, frozenset(new)))
                 stack.append((tgt, s2))
